@@ -42,17 +42,18 @@ Definition node0 (w:bool) (src t nsl:Z) : rnode :=
 Definition pay (n:nat) : list Z := map (fun i => (Z.of_nat i * 7 + 3) mod 256) (seq 0 n).
 Definition tpm (pgn dst:Z) (p:list Z) : msg := {| m_pri := 6; m_pgn := pgn; m_src := 0; m_dst := dst; m_data := p; m_tp := true |}.
 
-Local Ltac conc := vm_compute; repeat split; try reflexivity; try discriminate; try (intro X; discriminate X); try (left; reflexivity); try (right; reflexivity).
+Local Ltac conc := vm_compute; repeat split; try reflexivity; try discriminate; try (let X := fresh in intro X; discriminate X); try (left; reflexivity); try (right; reflexivity).
 
 Lemma node0_ready w src t nsl : 0 <= src <= 251 -> tp_ready (rn (node0 w src t nsl)) 0.
 Proof.
-  intros H. unfold tp_ready, node0. cbn [rn opened_node n_open n_mode n_drv n_q n_w64 n_pgn]. unfold dev_count, get_dev, znth. cbn [n_devs length nth Z.to_nat mk_dev d_src d_claim_timer sring_new q_rd q_wr].
-  repeat split; try reflexivity; try lia; [left; reflexivity|].
-  unfold sched_is_enabled. rewrite Z.eqb_refl. reflexivity.
+  intros H. unfold tp_ready, node0, dev_count, get_dev, znth. cbn [rn]. unfold opened_node. cbn [n_open n_mode n_drv n_q n_w64 n_pgn n_devs length nth Z.to_nat mk_dev d_src d_claim_timer sring_new q_rd q_wr Z.of_nat Pos.of_succ_nat].
+  repeat split; try reflexivity; try lia.
+  all: try (left; reflexivity).
+  all: destruct w; reflexivity.
 Qed.
 Lemma node0_addressed w src t nsl : 0 <= src <= 251 -> addressed (node0 w src t nsl) src 0.
 Proof.
-  intros H. unfold addressed, node0, dev_count, get_dev, znth. cbn [rn opened_node n_devs length nth Z.to_nat mk_dev d_src]. repeat split; try lia.
+  intros H. unfold addressed, node0, dev_count, get_dev, znth. cbn [rn]. unfold opened_node. cbn [n_devs length nth Z.to_nat mk_dev d_src Z.of_nat Pos.of_succ_nat]. repeat split; try lia.
 Qed.
 
 (* ================= 2g: control frames from a third station ================= *)
